@@ -48,6 +48,7 @@ func verifEnvBegin()                        { panic("verif intrinsic") }
 func verifEnvReplay()                       { panic("verif intrinsic") }
 func verifEnvEnd()                          { panic("verif intrinsic") }
 func verifRepeat() int                      { panic("verif intrinsic") }
+func verifGo(fn func())                     { panic("verif intrinsic") }
 func verifStubValue[T any](name string) (T, bool) { panic("verif intrinsic") }
 func verifOnRoute(msg sdk.Msg, h func(ctx context.Context, msg sdk.Msg) (*sdk.Result, error)) { panic("verif intrinsic") }
 
